@@ -498,13 +498,42 @@ package ps
 //@   loop 1: invariant 0 <= i
 //@   loop 2: invariant 0 <= i && right != nil
 //@
+// ---- blind signing algebra (C08, single signer): what the signer computes from a request and what unblinding checks --------
+// sumG1(p, s, z, k) = z + sum over i < k of s[i] * p[i]   (sumG2 the same in G2)
+//@ spec func sumG1(p seq[G1], s seq[F], z G1, k int) G1 = ite(k <= 0, z, g1add(sumG1(p, s, z, k-1), g1mul(p[k-1], s[k-1])))
+//@ spec func sumG2(p seq[G2], s seq[F], z G2, k int) G2 = ite(k <= 0, z, g2add(sumG2(p, s, z, k-1), g2mul(p[k-1], s[k-1])))
+//@
+//@ lemma sumG1Cong(p seq[G1], q seq[G1], s seq[F], t seq[F], z G1, k int)
+//@   props C08
+//@   induction k
+//@   pattern sumG1(p, s, z, k), sumG1(q, t, z, k)
+//@   requires forall j int :: 0 <= j && j < k ==> p[j] == q[j] && s[j] == t[j]
+//@   assert [congruent] sumG1(p, s, z, k) == sumG1(q, t, z, k)
+//@
+//@ lemma sumG2Cong(p seq[G2], q seq[G2], s seq[F], t seq[F], z G2, k int)
+//@   props C08
+//@   induction k
+//@   pattern sumG2(p, s, z, k), sumG2(q, t, z, k)
+//@   requires forall j int :: 0 <= j && j < k ==> p[j] == q[j] && s[j] == t[j]
+//@   assert [congruent] sumG2(p, s, z, k) == sumG2(q, t, z, k)
+//@
+//@ // the base point h of a request is the hash of its completed commitment cm + mPrime * gs[n-1], mPrime = H(cm)
+//@ spec macro requestBase(last G1, cm G1) G1 = g1hash(g1bytes(g1add(cm, g1mul(last, fhash(sha256(g1bytes(cm)))))))
+//@
 //@ func SignBlindSignature
-//@   props C09 C10
+//@   props C09 C10 C08
 //@   requires paramsOKp(pp) && bsOK(σ) && skOK(sk, len(pp.gs))
 //@   modifies nothing
 //@   ensures [signature] result.1 == nil ==> result.0 != nil && result.0.a != nil && result.0.b != nil
-//@   loop 0: invariant 0 <= i && a != nil
-//@   loop 1: invariant 0 <= i && b != nil
+//@   // a = sum of ys[i] * a[i]; b = x * h + sum of ys[i] * b[i]
+//@   ensures [signed-a] result.1 == nil ==> val(result.0.a) == sumG1(old(vals(σ.a)), old(vals(sk.ys)), g1sub(old(val(pp.c.GenG1)), old(val(pp.c.GenG1))), len(pp.gs))
+//@   ensures [signed-b] result.1 == nil ==> val(result.0.b) == sumG1(old(vals(σ.b)), old(vals(sk.ys)), g1mul(requestBase(old(val(pp.gs[len(pp.gs)-1])), old(val(σ.cm))), old(val(sk.x))), len(pp.gs))
+//@   loop 0: invariant 0 <= i && a != nil && fresh(a) && i <= len(pp.gs) && len(σ.a) == len(pp.gs) && len(σ.b) == len(pp.gs)
+//@   loop 0: invariant [partial-a] val(a) == sumG1(old(vals(σ.a)), old(vals(sk.ys)), g1sub(old(val(pp.c.GenG1)), old(val(pp.c.GenG1))), i)
+//@   loop 0: invariant [base] h != nil && val(h) == requestBase(old(val(pp.gs[len(pp.gs)-1])), old(val(σ.cm)))
+//@   loop 1: invariant 0 <= i && b != nil && fresh(b) && a != nil && i <= len(pp.gs) && len(σ.b) == len(pp.gs)
+//@   loop 1: invariant [kept-a] val(a) == sumG1(old(vals(σ.a)), old(vals(sk.ys)), g1sub(old(val(pp.c.GenG1)), old(val(pp.c.GenG1))), len(pp.gs))
+//@   loop 1: invariant [partial-b] val(b) == sumG1(old(vals(σ.b)), old(vals(sk.ys)), g1mul(requestBase(old(val(pp.gs[len(pp.gs)-1])), old(val(σ.cm))), old(val(sk.x))), i)
 //@
 //@ func randomOracleForBlindingProof
 //@   props C09 C10
@@ -525,9 +554,71 @@ package ps
 //@   props C10
 //@   requires sig.a != nil && sig.b != nil
 //@
-//@ func UnBlind
-//@   props C09
+//@ // a request is built from one ephemeral key z: u = z * g, the base h is the hash of the completed commitment, the message
+//@ // (with mPrime appended) is what is encrypted, and the secret handed back to the client is that h, z and message
+//@ func commit
+//@   props C08
+//@   requires paramsOKp(pp) && rcm != nil && allZr(m) && len(m) <= len(pp.gs)
 //@   modifies nothing
+//@   ensures result != nil && fresh(result)
+//@   loop 0: invariant 0 <= i && cm != nil && fresh(cm)
+//@
+//@ func Blind
+//@   props C08
+//@   requires paramsOKp(pp) && c != nil && c == pp.c && allZr(m) && pp.n == len(pp.gs) && len(m)+1 == pp.n
+//@   on-call encrypt(p1, c1, mm, hh, uu):
+//@     assert [ephemeral-key] uu == u && val(uu) == g1mul(val(pp.g), val(z))
+//@     assert [base]          hh == h && val(hh) == requestBase(val(pp.gs[len(pp.gs)-1]), val(oldCM))
+//@     assert [message]       same(mm, msg)
+//@   at return:
+//@     assert [request] result.0.u == u && same(result.0.a, a) && same(result.0.b, b) && result.0.cm == oldCM && result.1.h == h && result.1.z == z && same(result.1.msg, msg)
+//@
+//@ // a key pair: X = x * g2, Y[i] = ys[i] * g2
+//@ func LocalKeyGen
+//@   props C08
+//@   requires pp.c != nil && pp.g2 != nil && 0 <= pp.n
+//@   modifies nothing
+//@   ensures [key-pair] result.0.x != nil && result.1.X != nil && val(result.1.X) == g2mul(old(val(pp.g2)), val(result.0.x)) && len(result.0.ys) == pp.n && len(result.1.Y) == pp.n &&
+//@                      forall k int :: { result.1.Y[k] } 0 <= k && k < pp.n ==> result.0.ys[k] != nil && result.1.Y[k] != nil && val(result.1.Y[k]) == g2mul(old(val(pp.g2)), val(result.0.ys[k]))
+//@   loop 0: invariant 0 <= i && len(sk.ys) == pp.n && sk.x != nil && forall k int :: { sk.ys[k] } 0 <= k && k < i ==> sk.ys[k] != nil
+//@   loop 1: invariant 0 <= i && len(sk.ys) == pp.n && len(pk.Y) == pp.n && sk.x != nil && pk.X != nil && val(pk.X) == g2mul(old(val(pp.g2)), val(sk.x)) && !sameArray(pk.Y, pk.Y) == false &&
+//@                     (forall k int :: { sk.ys[k] } 0 <= k && k < pp.n ==> sk.ys[k] != nil) &&
+//@                     forall k int :: { pk.Y[k] } 0 <= k && k < i ==> pk.Y[k] != nil && val(pk.Y[k]) == g2mul(old(val(pp.g2)), val(sk.ys[k]))
+//@
+//@ // the inverse of a point: (g - g) - in
+//@ func neg
+//@   props C08
+//@   requires c != nil && c.GenG2 != nil && in != nil
+//@   modifies nothing
+//@   ensures [inverse] result != nil && val(result) == g2sub(g2sub(old(val(c.GenG2)), old(val(c.GenG2))), old(val(in)))
+//@
+//@ // unblinding: hPrime = b - z * a; it is accepted exactly when e(g2^-1, hPrime) * e(X + sum of msg[i] * Y[i], h) = 1
+//@ func UnBlind
+//@   props C09 C08
+//@   requires paramsOKp(pp) && pkOK(pk) && σ != nil && σ.a != nil && σ.b != nil && h != nil && z != nil && allZr(msg) && len(msg) <= len(pk.Y)
+//@   modifies nothing
+//@   ensures [witness]  result.1 == nil ==> result.0 != nil && val(result.0) == g1add(old(val(σ.b)), g1mul(old(val(σ.a)), fneg(old(val(z)))))
+//@   ensures [accepted] (result.1 == nil) == isunity(fexp(pair2(old(val(pp.g2Inverse)), g1add(old(val(σ.b)), g1mul(old(val(σ.a)), fneg(old(val(z))))),
+//@                                                        sumG2(old(vals(pk.Y)), old(vals(msg)), old(val(pk.X)), len(msg)), old(val(h)))))
+//@   loop 0: invariant 0 <= i && i <= len(msg) && E != nil && fresh(E) && hPrime != nil && fresh(hPrime)
+//@   loop 0: invariant [witness]  val(hPrime) == g1add(old(val(σ.b)), g1mul(old(val(σ.a)), fneg(old(val(z)))))
+//@   loop 0: invariant [key-side] val(E) == sumG2(old(vals(pk.Y)), old(vals(msg)), old(val(pk.X)), i)
+//@
+//@ // encryption of the message components under the ephemeral key u: a[i] = r[i] * g, b[i] = m[i] * h + r[i] * u
+//@ func encrypt
+//@   props C08
+//@   requires paramsOKp(pp) && c != nil && h != nil && u != nil && allZr(m)
+//@   modifies nothing
+//@   ensures [shape] len(result.0) == len(m) && len(result.1) == len(m) && len(result.2) == len(m)
+//@   ensures [ciphertext] forall k int :: { result.0[k] } { result.1[k] } 0 <= k && k < len(m) ==> result.0[k] != nil && result.1[k] != nil && result.2[k] != nil &&
+//@                        val(result.0[k]) == g1mul(old(val(pp.g)), val(result.2[k])) &&
+//@                        val(result.1[k]) == g1add(g1mul(old(val(h)), old(val(m[k]))), g1mul(old(val(u)), val(result.2[k])))
+//@   loop 0: invariant 0 <= i && len(r) == len(m) && fresh(r) && forall k int :: { r[k] } 0 <= k && k < i ==> r[k] != nil
+//@   loop 1: invariant 0 <= i && len(r) == len(m) && len(a) == len(m) && fresh(r) && fresh(a) && !sameArray(a, r) && (forall k int :: { r[k] } 0 <= k && k < len(m) ==> r[k] != nil) &&
+//@                     forall k int :: { a[k] } 0 <= k && k < i ==> a[k] != nil && val(a[k]) == g1mul(old(val(pp.g)), val(r[k]))
+//@   loop 2: invariant 0 <= i && len(r) == len(m) && len(a) == len(m) && len(b) == len(m) && fresh(r) && fresh(a) && fresh(b) && (forall k int :: { r[k] } 0 <= k && k < len(m) ==> r[k] != nil) &&
+//@                     (forall k int :: { a[k] } 0 <= k && k < len(m) ==> a[k] != nil && val(a[k]) == g1mul(old(val(pp.g)), val(r[k]))) &&
+//@                     forall k int :: { b[k] } 0 <= k && k < i ==> b[k] != nil && val(b[k]) == g1add(g1mul(old(val(h)), old(val(m[k]))), g1mul(old(val(u)), val(r[k])))
 
 // ---- each share is combined under the evaluation point of its own signer (C09) ------------------------------------------
 
